@@ -39,6 +39,12 @@ KEYS = {
 }
 
 
+def EXTRA_ARGS(sv):
+    return {'flags': {'flags': sv.DEBUG}, 'namespaces': {'namespaces': {'x': 'y'}}, 'custom': {'custom': {':--z': 'p'}},
+            'namespaces-empty': {'namespaces': {}}, 'custom-empty': {'custom': {}}, 'both-empty': {'namespaces': {}, 'custom': {}},
+            'all': {'namespaces': {}, 'custom': {}, 'flags': sv.DEBUG}}
+
+
 def args_of(sv, key):
     p, ns, cu, fl = KEYS[key]
     ns = dict(ns) if isinstance(ns, tuple) else ns
@@ -84,7 +90,7 @@ class CacheModel:
             self.refs[k] = fresh_parse(sv, k)
 
         self.alphabet = [('compile', k) for k in KEYS] + [('purge',)] + [('pass', k) for k in ('k0', 'k3', 'k6')] + \
-                        [('pass-extra', k, x) for k in ('k0',) for x in ('flags', 'namespaces', 'custom')] + \
+                        [('pass-extra', k, x) for k in ('k0',) for x in ('flags', 'namespaces', 'custom', 'namespaces-empty', 'custom-empty', 'both-empty')] + \
                         [('pass-same', 'k1', 'flags'), ('pass-same', 'k3', 'namespaces'), ('pass-same', 'k4', 'namespaces'), ('pass-same', 'k5', 'custom')] + \
                         [('pass-after', 'k0', 'purge'), ('pass-after', 'k3', 'fill'), ('pass-copy', 'k6', 'pickle'), ('pass-copy', 'k3', 'deepcopy')] + \
                         [('fill', self.bound - 2), ('fill', self.bound)]
@@ -136,7 +142,7 @@ class CacheModel:
                 obs.append((c, sv.compile(c)))
             elif a[0] == 'pass-extra':
                 c = do_compile(sv, a[1])
-                kw = {'flags': {'flags': sv.DEBUG}, 'namespaces': {'namespaces': {'x': 'y'}}, 'custom': {'custom': {':--z': 'p'}}}[a[2]]
+                kw = EXTRA_ARGS(sv)[a[2]]
                 try:
                     r = sv.compile(c, **kw)
                     obs.append(('returned', r))
@@ -365,6 +371,97 @@ def corpus():
     return CORPUS
 
 
+def run_rejects(sv, res):
+    """Every entry point x every kind of extra argument x compiled objects with and without maps of their own: a compiled selector plus
+    an extra argument is rejected with ValueError (an empty map is an argument too)."""
+    import bs4
+    soup = bs4.BeautifulSoup('<div><p class="a"><b></b></p></div>', 'html.parser')
+    entries = {'compile': lambda c, kw: sv.compile(c, **kw), 'select': lambda c, kw: sv.select(c, soup, **kw), 'select_one': lambda c, kw: sv.select_one(c, soup, **kw),
+               'iselect': lambda c, kw: list(sv.iselect(c, soup, **kw)), 'match': lambda c, kw: sv.match(c, soup.p, **kw), 'filter': lambda c, kw: sv.filter(c, soup.div, **kw),
+               'closest': lambda c, kw: sv.closest(c, soup.b, **kw)}
+    for key in ('k0', 'k2', 'k3', 'k5'):
+        c = do_compile(sv, key)
+        for how, kw in EXTRA_ARGS(sv).items():
+            for name, fn in entries.items():
+                res.evaluations += 1
+                try:
+                    with quiet():
+                        r = fn(c, kw)
+                    out = 'returned ' + type(r).__name__
+                except ValueError:
+                    res.outcome('extra-argument-rejected')
+                    res.nontrivial += 1
+                    continue
+                except Exception as e:
+                    out = 'raised ' + type(e).__name__
+                res.fail({'layer': 'reject', 'key': key, 'how': how, 'entry': name}, {'kind': 'extra-argument-accepted', 'arg': how, 'entry': 'compile' if name == 'compile' else 'query'},
+                         f'{name}(compiled {key}, ..., {kw!r}) {out} instead of raising ValueError')
+
+
+def run_map_laws(sv, res):
+    """The map types on every sequence of <= 3 pairs over 2 keys x 2 values (repeated keys included): equal exactly when the mappings are equal,
+    equal maps hash alike, and the same holds for the selectors compiled with them."""
+    ct = sv.css_types
+    pairs = [(k, v) for k in ('x', 'y') for v in ('u', 'v')]
+    seqs = [()] + [s for n in (1, 2, 3) for s in itertools.product(pairs, repeat=n)]
+    for cls_name in ('ImmutableDict', 'Namespaces', 'CustomSelectors'):
+        cls = getattr(ct, cls_name)
+        built = []
+        for s in seqs:
+            forms = [('pairs-list', list(s)), ('pairs-tuple', tuple(s)), ('dict', dict(s))]
+            for how, arg in forms:
+                try:
+                    built.append((s, how, cls(arg)))
+                except Exception as e:
+                    res.fail({'layer': 'maps', 'cls': cls_name, 'seq': [list(x) for x in s], 'how': how}, {'kind': 'map-constructor-raises', 'exc': type(e).__name__},
+                             f'{cls_name}({arg!r}) raised {e!r}')
+        for s, how, m in built:
+            res.evaluations += 1
+            if dict(m) != dict(s) or len(m) != len(dict(s)) or sorted(m) != sorted(dict(s)):
+                res.fail({'layer': 'maps', 'cls': cls_name, 'seq': [list(x) for x in s], 'how': how}, {'kind': 'map-content', 'how': how}, f'{cls_name}({how} of {s!r}) holds {dict(m)!r}')
+        by_content = {}
+        for s, how, m in built:
+            by_content.setdefault(frozenset(dict(s).items()), []).append((s, how, m))
+        reps = [v[0] for v in by_content.values()]
+        for content, group in by_content.items():
+            s0, how0, m0 = group[0]
+            for s, how, m in group[1:]:
+                res.evaluations += 1
+                if not (m == m0) or m != m0 or hash(m) != hash(m0):
+                    res.fail({'layer': 'maps', 'cls': cls_name, 'seq': [list(x) for x in s], 'how': how, 'other': [list(x) for x in s0], 'other_how': how0},
+                             {'kind': 'equal-maps-differ' if m != m0 else 'equal-but-different-hash', 'cls': cls_name, 'repeated_key': len(dict(s)) != len(s) or len(dict(s0)) != len(s0)},
+                             f'{cls_name}({how} {s!r}) vs {cls_name}({how0} {s0!r}): equal={m == m0}, same hash={hash(m) == hash(m0)} (same mapping {dict(s)!r})')
+                else:
+                    res.nontrivial += 1
+            for s, how, m in reps:
+                if frozenset(dict(s).items()) != content:
+                    res.evaluations += 1
+                    if m == m0:
+                        res.fail({'layer': 'maps', 'cls': cls_name, 'seq': [list(x) for x in s], 'how': how, 'other': [list(x) for x in s0], 'other_how': how0},
+                                 {'kind': 'different-maps-equal', 'cls': cls_name}, f'{cls_name}({s!r}) == {cls_name}({s0!r})')
+    # the same through compile(): a map given as pairs with a repeated key is the mapping dict() makes of it
+    for s in seqs:
+        if len(dict(s)) == len(s):
+            continue
+        for kw in ('namespaces', 'custom'):
+            conv = (lambda q: [(':--' + k, v) for k, v in q]) if kw == 'custom' else (lambda q: list(q))
+            try:
+                with quiet():
+                    sv.purge()
+                    a = sv.compile('p', **{kw: conv(s)})
+                    b = sv.compile('p', **{kw: dict(conv(s))})
+            except Exception:
+                res.outcome('pairs-not-accepted-by-compile')
+                continue
+            res.evaluations += 1
+            if a != b or hash(a) != hash(b) or len({a, b}) != 1:
+                res.fail({'layer': 'maps', 'cls': 'compile:' + kw, 'seq': [list(x) for x in s], 'how': 'pairs-list', 'other': [list(x) for x in dict(s).items()], 'other_how': 'dict'},
+                         {'kind': 'equal-but-different-hash' if a == b else 'equal-maps-differ', 'cls': 'compile', 'repeated_key': True},
+                         f"compile('p', {kw}={conv(s)!r}) vs the same mapping as a dict: equal={a == b}, same hash={hash(a) == hash(b)}")
+            else:
+                res.nontrivial += 1
+
+
 def run_values(sv, tier, i, n, res):
     ct = sv.css_types
     ts = tuples(tier)
@@ -376,6 +473,8 @@ def run_values(sv, tier, i, n, res):
             objs.append(sv.compile(t[0], t[1], t[3], custom=t[2]))
     if i == 0:
         res.count('argument_tuples', len(ts))
+        run_rejects(sv, res)
+        run_map_laws(sv, res)
     for a in range(i, len(ts), n):
         ca, ka = objs[a], ckey(ts[a])
         for b in range(len(ts)):
@@ -481,6 +580,11 @@ def run_shard(desc):
     return res
 
 
+def _same(a, b):
+    norm = lambda x: [norm(i) for i in x] if isinstance(x, (list, tuple)) else x
+    return norm(a) == norm(b)
+
+
 def replay(case):
     from .. import common
     sv = common.bind()
@@ -494,6 +598,13 @@ def replay(case):
                 return f
         return None
     r = shard.Result()
+    if case['layer'] in ('reject', 'maps'):
+        (run_rejects if case['layer'] == 'reject' else run_map_laws)(sv, r)
+        keys = [k for k in case if k != 'layer']
+        for f in r.failures:
+            if f['case']['layer'] == case['layer'] and all(_same(f['case'].get(k), case[k]) for k in keys):
+                return f['sig'], f['detail']
+        return None
     ts = tuples(case['tier'])
     # re-run the slice that contains the tuple
     run_values(sv, case['tier'], case['ia'] % 15, 15, r)
